@@ -7,7 +7,7 @@
   `Debug` / `Display` impls, `TextForms.*_from_str` the models of its `FromStr` impls
   (Model/TextForms.lean, Model/TextFormsExt.lean, compared with the crate by the `tx.*`
   correspondence).  For `NaiveDate`, `NaiveTime` and `FixedOffset` `Display` forwards to `Debug`
-  (`date_display`, `time_display`, `offset_display`; `roundtrip_Display_forms`).
+  (`date_display`, `time_display`, `offset_display`; `roundtrip_Display_forms` — definitional).
   `Spec.Shape` (Spec/TextShapeSpec.lean) states the shape clause of the property as predicates on a
   byte string (`DateShape`, `TimeShapeOf`, `OffsetShape`); the `*_text_shape` theorems apply them to
   what the writers print.
@@ -362,11 +362,51 @@ theorem fixed_local_after_max_display_does_not_parse_back :
   rw [t32] at c d
   exact ⟨hr, c, d⟩
 
-/-- **DateTime<Local>**, both forms.  `Local`'s values print through the generic `DateTime<Tz>` impls
-with a `FixedOffset` as offset, and `FromStr for DateTime<Local>` is the fixed-offset reader followed
-by `with_timezone(&Local)`.  For every value of the round-trip domain whose offset is the one the zone
-prescribes at its instant (`localOff z.utc = z.off` — what every `DateTime<Local>` satisfies; the zone
-itself is a parameter), both texts are the `DateTime<FixedOffset>` texts and read back as the value -/
+/-- **DateTime<Local>, without assuming where the offset came from.**  `Local`'s values print through
+the generic `DateTime<Tz>` impls with a `FixedOffset` as offset, and `FromStr for DateTime<Local>` is the
+fixed-offset reader followed by `with_timezone(&Local)`.  For every value of the round-trip domain — the
+offset field being ANY whole-minute offset, e.g. a foreign one put there by
+`DateTime::<Local>::from_naive_utc_and_offset` — both texts are the `DateTime<FixedOffset>` texts, and
+both read back as the same instant carrying the offset the zone prescribes at that instant
+(`localOff z.utc`; the zone is a parameter, the zone database is not modelled).  So the text reads back
+as the value exactly when the value's offset is the zone's (`↔` in the last two conjuncts). -/
+theorem roundtrip_DateTime_Local_zone_offset (localOff : NaiveDT → Int) (z : Zoned) (hz : ZInv z)
+    (hm : WholeMinute z.off) (hs : TStrict z.utc.time) (hr : InRangeSecs (wallSecs z)) :
+    local_dt_debug z = fixed_debug z ∧ local_dt_display z = fixed_display z ∧
+    ∃ l, NDTInv l ∧ instSecs l = wallSecs z ∧ l.time.frac = z.utc.time.frac ∧
+      local_dt_debug z = wok (naiveText 84 l ++ offsetText z.off) ∧
+      local_from_str localOff (naiveText 84 l ++ offsetText z.off) = .ok (.ok ⟨z.utc, localOff z.utc⟩) ∧
+      local_dt_display z = wok (naiveText 32 l ++ (32 :: offsetText z.off)) ∧
+      local_from_str localOff (naiveText 32 l ++ (32 :: offsetText z.off)) = .ok (.ok ⟨z.utc, localOff z.utc⟩) ∧
+      (local_from_str localOff (naiveText 84 l ++ offsetText z.off) = .ok (.ok z) ↔ localOff z.utc = z.off) ∧
+      (local_from_str localOff (naiveText 32 l ++ (32 :: offsetText z.off)) = .ok (.ok z) ↔
+        localOff z.utc = z.off) := by
+  obtain ⟨l, a1, a2, a3, b1, b2, b3, b4⟩ := roundtrip_DateTime_FixedOffset_spec z hz hm hs hr
+  have r84 : local_from_str localOff (naiveText 84 l ++ offsetText z.off) = .ok (.ok ⟨z.utc, localOff z.utc⟩) := by
+    unfold local_from_str; rw [b2]; rfl
+  have r32 : local_from_str localOff (naiveText 32 l ++ (32 :: offsetText z.off)) =
+      .ok (.ok ⟨z.utc, localOff z.utc⟩) := by
+    unfold local_from_str; rw [b4]; rfl
+  have key : ((Res.ok (Except.ok (⟨z.utc, localOff z.utc⟩ : Zoned)) : Parsed.RP Zoned) = .ok (.ok z)) ↔
+      localOff z.utc = z.off := by
+    constructor
+    · intro h
+      injection h with h
+      injection h with h
+      exact congrArg Zoned.off h
+    · intro h; rw [h]
+  refine ⟨rfl, rfl, l, a1, a2, a3, b1, r84, b3, r32, ?_, ?_⟩
+  · rw [r84]; exact key
+  · rw [r32]; exact key
+
+/-- **DateTime<Local>**, both forms: the round trip, under the hypothesis `hloc : localOff z.utc = z.off`
+— the value's offset is the one the zone prescribes at its instant.  `hloc` is a HYPOTHESIS on the value,
+not a fact about every `DateTime<Local>`: it holds for everything `Local` itself builds
+(`from_utc_datetime`, `from_local_datetime`, `now`, `with_timezone(&Local)` — each asks the zone at the
+value's instant), and fails for a value given a foreign offset through `from_naive_utc_and_offset`, which
+by `roundtrip_DateTime_Local_zone_offset` reads back with the zone's offset instead
+(`local_foreign_offset_does_not_parse_back`).  `DateTime<Local>` is not among the types the property
+lists; the zone itself is a parameter. -/
 theorem roundtrip_DateTime_Local (localOff : NaiveDT → Int) (z : Zoned) (hz : ZInv z) (hm : WholeMinute z.off)
     (hs : TStrict z.utc.time) (hr : InRangeSecs (wallSecs z)) (hloc : localOff z.utc = z.off) :
     local_dt_debug z = fixed_debug z ∧ local_dt_display z = fixed_display z ∧
@@ -375,11 +415,34 @@ theorem roundtrip_DateTime_Local (localOff : NaiveDT → Int) (z : Zoned) (hz : 
       local_from_str localOff (naiveText 84 l ++ offsetText z.off) = .ok (.ok z) ∧
       local_dt_display z = wok (naiveText 32 l ++ (32 :: offsetText z.off)) ∧
       local_from_str localOff (naiveText 32 l ++ (32 :: offsetText z.off)) = .ok (.ok z) := by
-  obtain ⟨l, a1, a2, a3, b1, b2, b3, b4⟩ := roundtrip_DateTime_FixedOffset_spec z hz hm hs hr
-  have hback : (⟨z.utc, localOff z.utc⟩ : Zoned) = z := by rw [hloc]
-  refine ⟨rfl, rfl, l, a1, a2, a3, b1, ?_, b3, ?_⟩
-  · unfold local_from_str; rw [b2]; exact congrArg (fun x => Res.ok (Except.ok x)) hback
-  · unfold local_from_str; rw [b4]; exact congrArg (fun x => Res.ok (Except.ok x)) hback
+  obtain ⟨e1, e2, l, a1, a2, a3, b1, _, b3, _, k84, k32⟩ :=
+    roundtrip_DateTime_Local_zone_offset localOff z hz hm hs hr
+  exact ⟨e1, e2, l, a1, a2, a3, b1, k84.mpr hloc, b3, k32.mpr hloc⟩
+
+/-- the negative witness (second review, G5): 2020-01-01T00:00:00 UTC held in a `DateTime<Local>` with
+the foreign offset +01:00 while the zone is UTC prints `2020-01-01T01:00:00+01:00` and reads back as the
+same instant with offset 0 — not the value (`==` on `DateTime` compares instants only) -/
+theorem local_foreign_offset_does_not_parse_back :
+    local_dt_debug ⟨⟨dateOfYo 2020 1, ⟨0, 0⟩⟩, 3600⟩ = wok (asciiBytes "2020-01-01T01:00:00+01:00") ∧
+    local_from_str (fun _ => 0) (asciiBytes "2020-01-01T01:00:00+01:00") = .ok (.ok ⟨⟨dateOfYo 2020 1, ⟨0, 0⟩⟩, 0⟩) ∧
+    local_from_str (fun _ => 0) (asciiBytes "2020-01-01T01:00:00+01:00") ≠ .ok (.ok ⟨⟨dateOfYo 2020 1, ⟨0, 0⟩⟩, 3600⟩) := by
+  have hz : ZInv ⟨⟨dateOfYo 2020 1, ⟨0, 0⟩⟩, 3600⟩ := by unfold ZInv NDTInv OffValid; decide +kernel
+  have hm : WholeMinute 3600 := by unfold WholeMinute; decide
+  have hs : TStrict (⟨0, 0⟩ : Time) := by decide +kernel
+  have hr : InRangeSecs (wallSecs ⟨⟨dateOfYo 2020 1, ⟨0, 0⟩⟩, 3600⟩) := by decide +kernel
+  obtain ⟨_, _, l, a1, a2, a3, b1, b2, _, _, k84, _⟩ :=
+    roundtrip_DateTime_Local_zone_offset (fun _ => 0) ⟨⟨dateOfYo 2020 1, ⟨0, 0⟩⟩, 3600⟩ hz hm hs hr
+  have hl : l = ⟨dateOfYo 2020 1, ⟨3600, 0⟩⟩ :=
+    wall_clock_unique l ⟨dateOfYo 2020 1, ⟨3600, 0⟩⟩ a1 (by unfold NDTInv; decide +kernel)
+      (a2.trans (by decide +kernel)) a3
+  subst hl
+  have t84 : naiveText 84 ⟨dateOfYo 2020 1, ⟨3600, 0⟩⟩ ++ offsetText 3600 = asciiBytes "2020-01-01T01:00:00+01:00" := by
+    decide +kernel
+  rw [t84] at b1 b2 k84
+  refine ⟨b1, b2, fun h => ?_⟩
+  have := k84.mp h
+  revert this
+  decide
 
 /-- **DateTime<Utc>**, both forms: the text is the UTC reading followed by `Z` (`Debug`), resp. by
 ` UTC` (`Display`), and `FromStr` reads either back as the same value -/
@@ -448,10 +511,15 @@ example : WholeMinute (-34200) ∧ offsetText (-34200) = asciiBytes "-09:30" := 
 
 /-! ### `Display` forwards to `Debug` (audit gap L2), the stateful `NaiveTime` reader (L4) -/
 
-/-- **NaiveDate, NaiveTime, FixedOffset: the `Display` column.**  The models of the three `Display`
-impls (`date_display`, `time_display`, `offset_display`, Model/TextFormsExt.lean — each is
-`fmt::Debug::fmt(self, f)` in the source, pinned in Pins/C09) print the specified text and that text
-reads back, exactly as the `Debug` column does -/
+/-- **NaiveDate, NaiveTime, FixedOffset: the `Display` column.**  NOT a new fact: in the source each of
+the three `Display` impls is the one-line forward `fmt::Debug::fmt(self, f)`, and its model
+(`date_display`, `time_display`, `offset_display`, Model/TextFormsExt.lean) is the same forward, so the
+middle conjuncts `*_display = *_debug` hold by DEFINITION (`rfl`) and the outer ones repeat
+`roundtrip_NaiveDate` / `roundtrip_NaiveTime` / `roundtrip_FixedOffset`.  That the source forwards is
+tied to the code by the pins of the three impls (Pins/C09) and by the harness comparing the `{}` column
+of every value (and, in the exhaustive digests `tx.blockdate` / `tx.blocktime`, of every date and of
+every second × fraction class), not by this theorem.  Kept so that the `Display` column the driver
+prints is named in a theorem. -/
 theorem roundtrip_Display_forms :
     (∀ d : Date, DateInv d → date_display d = wok (dateTextOf d) ∧ date_display d = date_debug d ∧
       date_from_str (dateTextOf d) = .ok (.ok d)) ∧
